@@ -16,7 +16,10 @@ pub fn is_contiguous<S: SizeArray, Strides: SizeArray>(shape: &S, strides: &Stri
         if stride != product {
             return false;
         }
-        product *= size;
+        // Saturate rather than overflow for shapes whose element count does
+        // not fit in a `usize`, consistent with how contiguous strides are
+        // computed. Such layouts are rejected by storage length checks.
+        product = product.saturating_mul(size);
     }
     true
 }
